@@ -121,20 +121,73 @@ func renderAppend(e *Env, v ssa.Value) string {
 	return "append(" + e.Term(call.Call.Args[0]) + ", " + e.Term(call.Call.Args[1]) + ")"
 }
 
-// marshalledObject: for SaveKeyValue(key, v) / append(args, v): the object that was marshalled into v.
+// marshalledObject: for SaveKeyValue(key, v) / append(args, v): the object that was marshalled into v. A value merged
+// from "nil (delete)" and "Marshal(obj)" (single write at the end of a saver) is the marshalled obj.
 func marshalledObject(v ssa.Value) ssa.Value {
-	ex, ok := v.(*ssa.Extract)
-	if !ok {
-		return nil
+	obj, _, _ := writeValue(v, 0)
+	return obj
+}
+
+// writeValue classifies a value handed to a storage write: the marshalled object and the Marshal call when every non-nil
+// way of producing the value is Marshal of one object, and whether the value may be nil (a delete).
+func writeValue(v ssa.Value, depth int) (obj ssa.Value, mcall *ssa.Call, mayNil bool) {
+	if depth > 4 {
+		return nil, nil, false
 	}
-	call, ok := ex.Tuple.(*ssa.Call)
-	if !ok || InvokeName(call) != "Marshalizer.Marshal" {
-		return nil
+	if isNilConst(v) {
+		return nil, nil, true
 	}
-	if mi, ok := call.Call.Args[0].(*ssa.MakeInterface); ok {
-		return mi.X
+	switch x := v.(type) {
+	case *ssa.Extract:
+		call, ok := x.Tuple.(*ssa.Call)
+		if !ok || InvokeName(call) != "Marshalizer.Marshal" {
+			return nil, nil, false
+		}
+		if mi, ok := call.Call.Args[0].(*ssa.MakeInterface); ok {
+			return mi.X, call, false
+		}
+		return call.Call.Args[0], call, false
+	case *ssa.Phi:
+		for _, ed := range x.Edges {
+			o, c, n := writeValue(ed, depth+1)
+			if n {
+				mayNil = true
+			}
+			if o == nil {
+				if !n {
+					return nil, nil, mayNil // some way of producing the value is neither nil nor a Marshal
+				}
+				continue
+			}
+			if obj != nil && obj != o {
+				return nil, nil, mayNil
+			}
+			obj, mcall = o, c
+		}
+		return obj, mcall, mayNil
 	}
-	return call.Call.Args[0]
+	return nil, nil, false
+}
+
+// onlyDelete: the written value is the nil constant on every path.
+func onlyDelete(v ssa.Value) bool {
+	obj, _, mayNil := writeValue(v, 0)
+	return obj == nil && mayNil && isNilOnly(v, 0)
+}
+
+func isNilOnly(v ssa.Value, depth int) bool {
+	if isNilConst(v) {
+		return true
+	}
+	if ph, ok := v.(*ssa.Phi); ok && depth < 4 {
+		for _, ed := range ph.Edges {
+			if !isNilOnly(ed, depth+1) {
+				return false
+			}
+		}
+		return true
+	}
+	return false
 }
 
 // c08r2 also implements R3 on the same credit sites.
